@@ -45,6 +45,10 @@ inductive Token where
   | eof
   deriving Repr, DecidableEq, Inhabited
 
+def Token.isComment : Token → Bool
+  | .comment _ => true
+  | _ => false
+
 /-- `ParseError` classes that can come out of the lexer / object parser -/
 inductive Err where
   /-- `ParseError::SyntaxError` -/
@@ -116,19 +120,30 @@ def hexPair (h1 h2 : Nat) : Option Nat :=
     | some a, some c => some (a * 16 + c)
     | _, _ => none
 
-/-- `read_name` after the `/` -/
-def readName : List Nat → Res (List Nat × List Nat)
-  | [] => .ok ([], [])
-  | b :: r =>
+/-- state of `read_name` between two bytes: plain, `#` consumed, `#` and `hex1` consumed -/
+inductive NameSt where
+  | plain
+  | hash
+  | hash1 (h1 : Nat)
+  deriving Repr, DecidableEq
+
+/-- `read_name` after the `/`.  After `#` the next two bytes are consumed whatever they are
+    (end of input: "Incomplete hex code in name"), then converted together. -/
+def readNameSt : NameSt → List Nat → Res (List Nat × List Nat)
+  | .plain, [] => .ok ([], [])
+  | .hash, [] => .error .syntax
+  | .hash1 _, [] => .error .syntax
+  | .plain, b :: r =>
     if isBreak b then .ok ([], b :: r)
-    else if b == 35 then
-      match r with
-      | h1 :: h2 :: r' =>
-        match hexPair h1 h2 with
-        | some v => consOut v (readName r')
-        | none => .error .syntax
-      | _ => .error .syntax
-    else consOut b (readName r)
+    else if b == 35 then readNameSt .hash r
+    else consOut b (readNameSt .plain r)
+  | .hash, b :: r => readNameSt (.hash1 b) r
+  | .hash1 h1, b :: r =>
+    match hexPair h1 b with
+    | some v => consOut v (readNameSt .plain r)
+    | none => .error .syntax
+
+def readName (inp : List Nat) : Res (List Nat × List Nat) := readNameSt .plain inp
 
 /-- state of `read_literal_string` between two bytes -/
 inductive LitSt where
@@ -212,25 +227,26 @@ def takeDigits : List Nat → List Nat × List Nat
       (b :: m, rest)
     else ([], b :: r)
 
-def digitsVal : Nat → List Nat → Nat
-  | acc, [] => acc
-  | acc, b :: r => digitsVal (acc * 10 + (b - 48)) r
+def digitsVal : List Nat → Nat → Nat
+  | [], acc => acc
+  | b :: r, acc => digitsVal r (acc * 10 + (b - 48))
 
 def allDigits : List Nat → Bool
   | [] => true
   | b :: r => isDigit b && allDigits r
 
+def splitSign : List Nat → Bool × List Nat
+  | 43 :: r => (false, r)
+  | 45 :: r => (true, r)
+  | l => (false, l)
+
 /-- `str::parse::<i64>()` (std, trusted): optional sign, at least one digit, in range -/
 def parseI64 (s : List Nat) : Option Int :=
-  let (neg, u) : Bool × List Nat :=
-    match s with
-    | 43 :: r => (false, r)
-    | 45 :: r => (true, r)
-    | l => (false, l)
-  if u.isEmpty || !allDigits u then none
+  let p := splitSign s
+  if p.2.isEmpty || !allDigits p.2 then none
   else
-    let n := digitsVal 0 u
-    if neg then (if n ≤ 9223372036854775808 then some (- (Int.ofNat n)) else none)
+    let n := digitsVal p.2 0
+    if p.1 then (if n ≤ 9223372036854775808 then some (- (Int.ofNat n)) else none)
     else (if n ≤ 9223372036854775807 then some (Int.ofNat n) else none)
 
 def countDigits : List Nat → Nat
@@ -245,41 +261,44 @@ def validF64 (mant : List Nat) (exp : Option (List Nat)) : Bool :=
   | none => true
   | some e => countDigits e > 0
 
+/-- the sign part of `read_number`: a sign must be followed by a digit or `.` (or end of input) -/
+def readSign (inp : List Nat) : Res (List Nat × List Nat) :=
+  match inp with
+  | b :: r =>
+    if b == 43 || b == 45 then
+      match r with
+      | nx :: _ => if !isDigit nx && nx != 46 then .error .syntax else .ok ([b], r)
+      | [] => .ok ([b], r)
+    else .ok ([], inp)
+  | [] => .ok ([], inp)
+
+/-- the scientific-notation part of `read_number`: `e`/`E`, optional sign, digits -/
+def readExponent (r2 : List Nat) : Option (List Nat) × List Nat :=
+  match r2 with
+  | e :: r =>
+    if e == 101 || e == 69 then
+      let sr : List Nat × List Nat :=
+        match r with
+        | s :: r'' => if s == 43 || s == 45 then ([s], r'') else ([], r)
+        | [] => ([], r)
+      let dr := takeDigits sr.2
+      (some (e :: (sr.1 ++ dr.1)), dr.2)
+    else (none, r2)
+  | [] => (none, r2)
+
 /-- `read_number`; the first byte is one of `+ - 0-9 .` -/
 def readNumber (inp : List Nat) : Res (Token × List Nat) :=
-  -- sign
-  let signed : Res (List Nat × List Nat) :=
-    match inp with
-    | b :: r =>
-      if b == 43 || b == 45 then
-        match r with
-        | nx :: _ => if !isDigit nx && nx != 46 then .error .syntax else .ok ([b], r)
-        | [] => .ok ([b], r)
-      else .ok ([], inp)
-    | [] => .ok ([], inp)
-  match signed with
+  match readSign inp with
   | .error e => .error e
   | .ok (sg, r1) =>
-    let (mant, hasDot, r2) := takeMantissa false r1
-    -- scientific notation
-    let (ex, r3) : Option (List Nat) × List Nat :=
-      match r2 with
-      | e :: r =>
-        if e == 101 || e == 69 then
-          let (es, r') : List Nat × List Nat :=
-            match r with
-            | s :: r'' => if s == 43 || s == 45 then ([s], r'') else ([], r)
-            | [] => ([], r)
-          let (ds, r'') := takeDigits r'
-          (some (e :: (es ++ ds)), r'')
-        else (none, r2)
-      | [] => (none, r2)
-    let numberStr := sg ++ mant ++ (match ex with | some e => e | none => [])
-    if hasDot || ex.isSome then
-      if validF64 mant ex then .ok (.real numberStr, r3) else .error .syntax
+    let m := takeMantissa false r1
+    let x := readExponent m.2.2
+    let numberStr := sg ++ m.1 ++ x.1.getD []
+    if m.2.1 || x.1.isSome then
+      if validF64 m.1 x.1 then .ok (.real numberStr, x.2) else .error .syntax
     else
       match parseI64 numberStr with
-      | some i => .ok (.int i, r3)
+      | some i => .ok (.int i, x.2)
       | none => .error .syntax
 
 /-- `process_keyword` -/
